@@ -190,8 +190,22 @@ def _generate_threads(rng):
             # the pool of shared condition objects is process-wide: sharing it between the
             # threads' simulations would be the harness's interference, not usim's
             scenario.pop("share_conditions", None)
-        elif r < 0.65:
+        elif r < 0.6:
             scenario = C10.generate(rng, "quick")["scenario"]
+        elif r < 0.75:
+            # a run that fails, a run that is cut off by `till`, or the same program run twice
+            # by its thread - next to the other threads' simulations
+            actors = [_simple_actor(rng, "r%d" % i, length=rng.randint(1, 3))
+                      for i in range(rng.randint(1, 3))]
+            scenario = {"start": rng.choice([0, 2, -1]), "resources": {}, "actors": actors}
+            r2 = rng.random()
+            if r2 < 0.4:
+                actors[rng.randrange(len(actors))]["ops"].append(
+                    {"op": "raise", "type": rng.choice(["E", "K", "assert"])})
+            elif r2 < 0.7:
+                scenario["till"] = scenario["start"] + rng.choice([0.25, 0.75, 1, 2.5])
+            if rng.random() < 0.5:
+                scenario["twice"] = True
         else:
             # an activity that runs complete nested simulations in between its own steps
             actors = [_simple_actor(rng, "r%d" % i, length=rng.randint(1, 3))
@@ -410,6 +424,13 @@ def _solo(scenario):
         cleanup(rec)
 
 
+def _norm(outcome):
+    """Outcome of a run as far as both ways of recording it agree: how it ended and with what type."""
+    if outcome and outcome[0] == "raise":
+        return ("raise", str(outcome[1][0]).split("[")[0])      # Concurrent[X] is a Concurrent
+    return tuple(outcome[:1])
+
+
 def run_threads(case):
     violations = []
 
@@ -434,6 +455,7 @@ def run_threads(case):
     results = {}
     free_seen = []
     line_switches = [0]
+    after_seen = []
 
     def on_line(frame):
         line_switches[0] += 1
@@ -442,20 +464,31 @@ def run_threads(case):
     def worker(name, scenario):
         try:
             baton.wait_turn(name)
-            world = World({"property": ID, "scenario": scenario, "plan": [], "config": {}},
-                          seam=shared)
-            sys.settrace(line_tracer(codes, on_line))
-            try:
-                usim.run(world.root(), start=scenario.get("start", 0))
-                outcome = ("ok",)
-            except HarnessAbort as err:
-                outcome = ("abort", str(err))
-            except BaseException as err:       # noqa: B902
-                outcome = ("raise", (type(err).__name__, str(err)[:100]))
-            finally:
-                sys.settrace(None)
-            items = [(e[2], e[3], e[4]) + tuple(e[5:]) for e in world.trace]
-            results[name] = (digest(items), outcome)
+            kwargs = {"start": scenario.get("start", 0)}
+            if scenario.get("till") is not None:
+                kwargs["till"] = scenario["till"]
+            for attempt in range(2 if scenario.get("twice") else 1):
+                world = World({"property": ID, "scenario": scenario, "plan": [], "config": {}},
+                              seam=shared)
+                sys.settrace(line_tracer(codes, on_line))
+                try:
+                    usim.run(world.root(), **kwargs)
+                    outcome = ("ok",)
+                except HarnessAbort as err:
+                    outcome = ("abort", str(err))
+                except BaseException as err:       # noqa: B902
+                    outcome = ("raise", (type(err).__name__, str(err)[:100]))
+                finally:
+                    sys.settrace(None)
+                seen = _outside()
+                if seen is not None:
+                    after_seen.append((name, seen, outcome[0]))
+                items = [(e[2], e[3], e[4]) + tuple(e[5:]) for e in world.trace]
+                result = (digest(items), outcome)
+                if attempt and results.get(name) != result:
+                    results[name] = (None, ("second-run-differs", results.get(name), result))
+                    break
+                results[name] = result
         except BaseException as err:           # noqa: B902
             results[name] = (None, ("thread-error", type(err).__name__, str(err)[:100]))
         finally:
@@ -496,12 +529,15 @@ def run_threads(case):
         want_digest, want_outcome, _ = solo[i]
         if got is None:
             bad("thread-no-result", "%s produced no result" % name)
-        elif got[1] != want_outcome:
+        elif _norm(got[1]) != _norm(want_outcome):
             bad("thread-outcome", "%s ended with %r in parallel, %r alone"
                 % (name, got[1], want_outcome))
         elif got[0] != want_digest:
             bad("thread-interference", "%s produced a different trace next to the other "
                 "simulations (digest %s, alone %s)" % (name, got[0], want_digest))
+    for name, seen, how in after_seen:
+        bad("simulation-visible-outside", "%s read time.now == %r after its run() had ended (%s)"
+            % (name, seen, how))
     if free_seen:
         bad("simulation-visible-in-other-thread", "a thread without simulation read time.now "
             "== %r" % (free_seen[0],))
